@@ -48,6 +48,22 @@ Example C15_example :
   plan_delete (bare [1; 2; 3; 4; 5; 6]) [Seg 4 6; Seg 1 2; Seg 5 3] false = Ok (bare [1; 3]).
 Proof. vm_compute. split; reflexivity. Qed.
 
+(* split of a circular record at two or more distinct positions h1 < ... < hk:
+   the first piece runs from the last cut across the origin to the first, the
+   others between consecutive cuts; together they are the input re-origined
+   at the last cut (for one distinct cut the record is rotated there: C04) *)
+Theorem C15_split_circular_concat : forall (p : list byte) h1 rest, 0 <= h1 -> ascending h1 rest ->
+  h1 < last rest h1 -> last rest h1 < zlen p ->
+  exists pieces, slice_pairs (ResizeProofs.bare p) (last rest h1 :: h1 :: rest) = Ok pieces /\
+    flat_map residues pieces = skipn (Z.to_nat (last rest h1)) p ++ firstn (Z.to_nat (last rest h1)) p.
+Proof. exact circular_split_concat. Qed.
+Print Assumptions C15_split_circular_concat.
+
+Example C15_split_circular_example :
+  slice_pairs (ResizeProofs.bare [97; 98; 99; 100; 101; 102; 103; 104]) [6; 2; 5; 6]
+  = Ok [ResizeProofs.bare [103; 104; 97; 98]; ResizeProofs.bare [99; 100; 101]; ResizeProofs.bare [102]].
+Proof. vm_compute. reflexivity. Qed.
+
 (* rotate: the head of the first located region comes to index 0 -- the record
    starts with the residue that was at that position, the residues before it
    follow at the end, nothing else changes (record without features; features
